@@ -96,6 +96,7 @@ func (w *World) buildInit() *initInfo {
 	}
 	e := NewEngine(w.prog)
 	e.lenient = true
+	litLookup = e.litRead
 	lenientNow = true
 	defer func() { lenientNow = false }()
 	e.contracts = map[*ssa.Function]*ssa.Function{}
